@@ -35,6 +35,9 @@ def execute(case):
                     if be == "core":
                         runs["%s_late_seq" % be] = lf.run_views(op, inp, "object", shared=True, objfactory=lambda: lf.late_object(op, inp))
                 continue
+            if (c["skip"] != -1 or c["tr"] or c["modes"]) and c["bad"] != "none":     # invalid pair under view options
+                runs["%s_convert" % be] = lf.run_tucker_options_invalid(inp, c["skip"], c["tr"], c["modes"])
+                continue
             if c["skip"] != -1 or c["tr"] or c["modes"]:       # Tucker view options
                 for how in ("tuple", "object"):
                     if how == "object" and (c["tr"] or c["modes"]):
